@@ -21,7 +21,7 @@ fn corpus_case(rng: &mut Rng, small: bool, sel: usize) -> ConnCase {
                 bytes.extend_from_slice(format!("{:x}\r\n", n).as_bytes());
                 bytes.extend((0..n).map(|i| b'a' + i as u8));
                 bytes.extend_from_slice(b"XX\r\n0\r\n\r\n");
-                let a = Action { as_reader: 1, read_total: 64, buf: *rng.pick(&[1usize, 3, 64]), delay_ms: 0, fin: Finish::Respond(g::ok_resp(0, rng)) };
+                let a = Action { as_reader: 1, read_total: 64, buf: *rng.pick(&[1usize, 3, 64]), delay_ms: 0, fin: Finish::Respond(g::ok_resp(0, rng)), zero_read: false };
                 ConnCase { bytes, mode: Mode::HalfClose, hold: None, segs: vec![], script: vec![a], unix: false, intent: String::new() }
             }
             0 => g::gen_mixed(rng),
@@ -210,6 +210,14 @@ pub fn mt_family(id0: usize, rng: &mut Rng, out: &mut Vec<String>) {
         }
         script.push(a);
     }
+    if n >= 4 && rng.chance(1, 4) {
+        // two (or three) consecutive raw writers taken and dropped untouched, after an earlier request
+        let i = rng.range(1, n - 3);
+        let m = if i + 3 < n && rng.chance(1, 3) { 3 } else { 2 };
+        for k in i..i + m {
+            script[k].fin = Finish::Writer(vec![]);
+        }
+    }
     let mut bytes = vec![];
     for r in &reqs {
         bytes.extend_from_slice(&g::render(rng, r));
@@ -240,7 +248,7 @@ pub fn ahead_family(id0: usize, rng: &mut Rng, out: &mut Vec<String>) {
     let mut script = vec![];
     for i in 0..n {
         let mut r = g::AReq::get(&format!("/a{}", i));
-        let mut a = Action { as_reader: 0, read_total: 0, buf: 4096, delay_ms: 0, fin: Finish::Respond(g::ok_resp(i, rng)) };
+        let mut a = Action { as_reader: 0, read_total: 0, buf: 4096, delay_ms: 0, fin: Finish::Respond(g::ok_resp(i, rng)), zero_read: false };
         if i == 0 && streamed_first {
             // larger than the buffering threshold, or chunked: read to EOF on arrival
             let blen = *rng.pick(&[1025usize, 3000, 9000]);
